@@ -80,3 +80,20 @@ def cs_of(v):
 
 def mat_eq(A, B):
     return [A[i][j] == B[i][j] for i in range(3) for j in range(3)]
+
+
+def geom_interp(extra=None, contracts=None):
+    g = base_globals()
+    it = Interp("geom", g, contracts=contracts or {})
+    it.globals["ANGLE_DEGREES_TOL"] = it.mod.global_literal("ANGLE_DEGREES_TOL") if _has_global(it, "ANGLE_DEGREES_TOL") else 1e-11
+    if extra:
+        it.globals.update(extra)
+    return it
+
+
+def _has_global(it, name):
+    try:
+        it.mod.global_literal(name)
+        return True
+    except Exception:
+        return False
